@@ -22,6 +22,15 @@ class Check(RuntimeCheck):
                 'C18_methods_distinct', 'setShared_other', 'setInst_mocks', 'C18_assemble_layout_invariant',
                 'C18_eval_respects_equiv', 'C18_history_respects_equiv', 'setPat_equiv', 'assembleList_append']
 
+    def extra(self, rep, tier, seed):
+        # routing through the original must behave like routing through a clone also for by-value / Rc / Arc receivers of provided methods; generic instances are distinct methods: compiled cases
+        from .macro_common import MacroCheck
+        class Generated(MacroCheck):
+            prop = 'C18'
+            case_prefixes = ('own.default', 'own.m2', 'rc.default.shared', 'arc.default.shared', 'ref.default', 'mut.default', 'generic.instances-distinct')
+            facts_of_interest = r'$^'
+        Generated().explore_into(rep, tier, seed, ir=False, merge=True)
+
     def rule(self):
         return ("relational families: each base scenario (random clause set over up to 6 methods, ordered and unordered, with a "
                 "history) is re-run (a) with its clauses interleaved differently across methods (per-method order and the order "
